@@ -2,6 +2,8 @@ package main
 
 import (
 	"fmt"
+	"os"
+	"path/filepath"
 	"strconv"
 	"strings"
 	"time"
@@ -12,11 +14,15 @@ import (
 
 	"hapverif/gen"
 	"hapverif/hvutil"
+	"hapverif/world"
 )
 
 func init() {
 	props["C02"] = runC02
 	replayers["C02"] = func(c *ctx, a []string) {
+		if len(a) >= 3 && a[0] == "hist" {
+			c02hist(c, a[1], a[2:])
+		}
 		if len(a) == 5 && a[0] == "pair" {
 			c02case(c, "C02", c02parseFlags(a[1]), c02parseEPs(a[2]), c02parseEPs(a[3]), c02parseScript(a[4]))
 		}
@@ -364,6 +370,120 @@ func c02random(c *ctx, prop string, r *gen.Rng, n int) {
 	}
 }
 
+// c02hist: end-to-end form of the statement. A history goes through the real pipeline (watchers,
+// converters, Instance, templates) talking to the simulated HAProxy; after EVERY reconcile the running
+// server table and the certificates held in memory must equal what HAProxy would load from the files on
+// disk. `faults` = occurrence indexes of admin socket calls answered badly ("b3" = 4th call answers
+// "No such server.", "e5" = 6th call is a socket error), comma separated, "-" for none.
+func c02hist(c *ctx, faults string, ops []string) {
+	out := func() (res string) {
+		defer func() {
+			if r := recover(); r != nil {
+				res = "panic:" + sanitize(fmt.Sprint(r))
+			}
+		}()
+		w := world.NewWorld()
+		p, err := world.NewPipeline(w, world.DefaultOptions())
+		if err != nil {
+			return "skip:" + sanitize(err.Error())
+		}
+		defer p.Close()
+		p.Sim.Faults.AdminBad = map[int]string{}
+		p.Sim.Faults.AdminErr = map[int]bool{}
+		if faults != "-" {
+			for _, f := range strings.Split(faults, ",") {
+				if len(f) < 2 {
+					continue
+				}
+				n, _ := strconv.Atoi(f[1:])
+				if f[0] == 'b' {
+					p.Sim.Faults.AdminBad[n] = "No such server."
+				} else {
+					p.Sim.Faults.AdminErr[n] = true
+				}
+			}
+		}
+		var steps []string
+		for _, o := range append(append([]string(nil), ops...), "sync") {
+			if o != "sync" {
+				evs, err := w.Apply(world.Op{Text: o})
+				if err != nil {
+					return "skip:" + sanitize(err.Error())
+				}
+				p.Deliver(evs)
+				continue
+			}
+			before := p.Sim.Reloads
+			if _, err := p.Reconcile(); err != nil {
+				steps = append(steps, "err")
+				continue
+			}
+			disk, err := world.DiskTable(p.CfgDir)
+			if err != nil {
+				return "skip:" + sanitize(err.Error())
+			}
+			run := p.Sim.RunningTable()
+			st := "dyn"
+			if p.Sim.Reloads > before {
+				st = "reload"
+			}
+			if strings.Join(disk, "\n") != strings.Join(run, "\n") {
+				d := ""
+				for i := range disk {
+					if i >= len(run) || disk[i] != run[i] {
+						d = "disk[" + disk[i] + "]"
+						if i < len(run) {
+							d += "run[" + run[i] + "]"
+						}
+						break
+					}
+				}
+				st += ":diff:" + sanitize(d)
+			}
+			// certificates held in memory vs files
+			for f, content := range p.Sim.Certs {
+				if b, err := os.ReadFile(f); err == nil && string(b) != content && strings.ReplaceAll(string(b), "\n\n", "\n") != content+"\n" && string(b) != content+"\n" {
+					st += ":crtdiff:" + sanitize(filepath.Base(f))
+				}
+			}
+			steps = append(steps, st)
+		}
+		c.stat(fmt.Sprintf("hist_cmds_%v", len(p.Sim.Cmds) > 0), 1)
+		return strings.Join(steps, ",")
+	}()
+	c.emit("C02", "hist "+faults+" "+strings.Join(ops, " "), out)
+}
+
+func c02histGen(c *ctx, r *gen.Rng, n int) {
+	cfg := world.DefaultGen()
+	cfg.Classes = false
+	cfg.MaxBatches = 8
+	for i := 0; i < n; i++ {
+		g := world.NewGen(r.Fork(), cfg)
+		ops := g.History()
+		// more endpoint churn and secret rotation between the batches
+		var out []string
+		for _, o := range ops {
+			out = append(out, o)
+			if o == "sync" && r.Chance(2, 3) {
+				for k := r.Range(1, 3); k > 0; k-- {
+					out = append(out, g.ChurnOp())
+				}
+				out = append(out, "sync")
+			}
+		}
+		faults := "-"
+		if r.Chance(1, 3) {
+			var fs []string
+			for k := r.Range(1, 3); k > 0; k-- {
+				fs = append(fs, gen.Pick(r, []string{"b", "e"})+strconv.Itoa(r.Intn(12)))
+			}
+			faults = strings.Join(fs, ",")
+		}
+		c02hist(c, faults, out)
+	}
+}
+
 func runC02(c *ctx) {
 	f := c02flags{dyn: true, same: true, block: 1, iw: 1}
 	ep := func(name, ip string, en bool, w int) c02ep {
@@ -384,4 +504,9 @@ func runC02(c *ctx) {
 		n = 300000
 	}
 	c02random(c, "C02", r, n)
+	nh := 80
+	if c.thorough() {
+		nh = 3000
+	}
+	c02histGen(c, r.Fork(), nh)
 }
